@@ -653,7 +653,7 @@ func ruleDiscardChain(r *core.Reporter) {
 		if ii.Atom.V != verdict || verdict == nil {
 			continue
 		}
-		start := ir.Pt{B: ii.If.Block().Succs[ii.EdgeWhen(true)], I: 0}
+		start := ir.EdgePt(ii.If.Block(), ii.EdgeWhen(true))
 		res := ir.Reach([]ir.Pt{start}, ir.Opts{Stop: func(in ssa.Instruction) bool { return in == ssa.Instruction(ii.If) }})
 		okChain, why = true, ""
 		if res.Stopped[ii.If] {
@@ -710,7 +710,7 @@ func ruleDiscardChain(r *core.Reporter) {
 				continue
 			}
 			okLoop = true
-			start := ir.Pt{B: ii.If.Block().Succs[ii.EdgeWhen(true)], I: 0}
+			start := ir.EdgePt(ii.If.Block(), ii.EdgeWhen(true))
 			lres := ir.Reach([]ir.Pt{start}, ir.Opts{})
 			for in := range lres.Reached {
 				if ret, isRet := in.(*ssa.Return); isRet {
@@ -736,7 +736,7 @@ func ruleDiscardChain(r *core.Reporter) {
 		if ii.Atom.V != ssa.Value(contains) {
 			continue
 		}
-		start := ir.Pt{B: ii.If.Block().Succs[ii.EdgeWhen(true)], I: 0}
+		start := ir.EdgePt(ii.If.Block(), ii.EdgeWhen(true))
 		okHook = true
 		hres := ir.Reach([]ir.Pt{start}, ir.Opts{})
 		for in := range hres.Reached {
